@@ -94,6 +94,12 @@ func vhCondC04(g *vhDigits, depth int, name string) Condition {
 		ex = vhBuildC04(g, depth, 2, name+"x")
 	}
 	switch g.next(8) {
+	case 4:
+		// options switched on after the parts were set (no-nesting included:
+		// it only judges later assignments)
+		c := Cond("k"+name, ComparisonOperator(code), ex)
+		c.condition.cfg.opt = nnest | parens | nspad
+		return c
 	case 0, 1:
 		// a user-defined operator must survive the round trip as well
 		return Cond("k"+name, vhUserOp{"~" + string(rune('0'+code)), "approx"}, ex)
